@@ -6,7 +6,7 @@ From Moss Require Import Sync.
 Definition sy_inv (s : sy) : Prop :=
   y_top s <= y_cap s /\
   y_arrived s = y_ok s + y_closed_ret s + y_wait s /\
-  (y_closed s = true -> y_wait s = 0 /\ y_syncwait s = 0) /\
+  (y_closed s = true -> y_wait s = 0 /\ y_syncwait s = 0 /\ y_queued s = 0) /\
   (y_wait s > 0 -> y_top s = y_cap s).
 
 Lemma sy_inv_init cap : sy_inv (sy_init cap).
@@ -17,10 +17,11 @@ Ltac fin := unfold sy_inv; simpl; repeat split; intros; try discriminate; try co
 Lemma sy_step_inv s l : sy_inv s -> sy_inv (sy_step s l).
 Proof.
   intros [H1 [H2 [H3 H4]]].
-  destruct (y_closed s) eqn:Ec; [destruct (H3 eq_refl) as [Hw Hs]|];
-    destruct l; simpl; rewrite ?Ec;
+  destruct (y_closed s) eqn:Ec; [destruct (H3 eq_refl) as [Hw [Hs Hq]]|];
+    destruct l; simpl; rewrite ?Ec; simpl;
     try (destruct (Nat.ltb (y_top s) (y_cap s)) eqn:El;
          [apply Nat.ltb_lt in El|apply Nat.ltb_ge in El]);
+    try (destruct (y_asleep s) eqn:Ea); simpl;
     fin.
 Qed.
 
@@ -36,10 +37,10 @@ Theorem bounded_top cap ls : y_top (sy_run (sy_init cap) ls) <= cap.
 Proof.
   destruct (sy_run_inv cap ls) as [H _].
   assert (Hc : forall s l, y_cap (sy_step s l) = y_cap s).
-  { intros s l. destruct l; simpl; auto.
-    - destruct (y_closed s); auto. destruct (Nat.ltb (y_top s) (y_cap s)); auto.
-    - destruct (y_closed s); auto.
-    - destruct (y_closed s); auto. }
+  { intros s l. destruct l; simpl; auto;
+      destruct (y_closed s); simpl; auto;
+      try (destruct (Nat.ltb (y_top s) (y_cap s)); auto);
+      destruct (y_asleep s); auto. }
   assert (G : forall ls s, y_cap (sy_run s ls) = y_cap s).
   { induction ls0 as [|l r IH]; intros s; simpl; auto. rewrite IH. apply Hc. }
   rewrite G in H. exact H.
@@ -57,20 +58,20 @@ Proof. destruct (sy_run_inv cap ls) as [_ [H2 [_ H4]]]. auto. Qed.
    ExecuteBatch returns ErrClosed *)
 Theorem close_is_final cap ls1 ls2 :
   let s := sy_run (sy_init cap) (ls1 ++ SClose :: ls2) in
-  y_closed s = true /\ y_wait s = 0 /\ y_syncwait s = 0.
+  y_closed s = true /\ y_wait s = 0 /\ y_syncwait s = 0 /\ y_queued s = 0.
 Proof.
   simpl. unfold sy_run. rewrite fold_left_app. simpl.
   set (s0 := sy_step (fold_left sy_step ls1 (sy_init cap)) SClose).
   assert (H0 : y_closed s0 = true) by reflexivity.
   assert (G : forall ls s, y_closed s = true -> y_closed (fold_left sy_step ls s) = true).
   { induction ls as [|l r IH]; intros s Hs; simpl; auto. apply IH.
-    destruct l; simpl; rewrite ?Hs; auto. }
+    destruct l; simpl; rewrite ?Hs; simpl; auto. }
   pose proof (G ls2 s0 H0) as Hc.
   assert (Hinv : forall ls s, sy_inv s -> sy_inv (fold_left sy_step ls s)).
   { induction ls as [|l r IH]; intros s Hs; simpl; auto. apply IH. now apply sy_step_inv. }
   assert (Hi : sy_inv (fold_left sy_step ls2 s0)).
   { apply Hinv. apply sy_step_inv. apply (sy_run_inv cap ls1). }
-  destruct Hi as [_ [_ [H3 _]]]. destruct (H3 Hc). auto.
+  destruct Hi as [_ [_ [H3 _]]]. destruct (H3 Hc) as [? [? ?]]. auto.
 Qed.
 
 Theorem after_close_execute_batch_fails s :
@@ -83,35 +84,40 @@ Proof. intros H. simpl. rewrite H. simpl. auto. Qed.
    strictly reduces the number of blocked writers (cap > 0); so after at most
    ceil(wait/cap) merger cycles every blocked writer has returned *)
 Theorem ingest_makes_progress s :
-  y_closed s = false -> y_cap s > 0 -> y_wait s > 0 ->
+  y_closed s = false -> y_asleep s = false -> y_cap s > 0 -> y_wait s > 0 ->
   y_wait (sy_step s SIngest) < y_wait s /\
   y_ok (sy_step s SIngest) = y_ok s + Nat.min (y_wait s) (y_cap s).
 Proof.
-  intros Hc Hcap Hw. simpl. rewrite Hc. simpl. split; auto.
+  intros Hc Ha Hcap Hw. simpl. rewrite Hc, Ha. simpl. split; auto.
   destruct (Nat.min_spec (y_wait s) (y_cap s)) as [[_ ->]|[_ ->]]; lia.
 Qed.
 
 Fixpoint ingests (n : nat) : list sl := match n with O => [] | S k => SIngest :: ingests k end.
 
 Lemma ingest_state s :
-  y_closed s = false ->
-  y_closed (sy_step s SIngest) = false /\ y_cap (sy_step s SIngest) = y_cap s /\
+  y_closed s = false -> y_asleep s = false ->
+  y_closed (sy_step s SIngest) = false /\ y_asleep (sy_step s SIngest) = false /\
+  y_cap (sy_step s SIngest) = y_cap s /\
   y_wait (sy_step s SIngest) = y_wait s - Nat.min (y_wait s) (y_cap s).
-Proof. intros H. simpl. rewrite H. simpl. auto. Qed.
+Proof. intros H Ha. simpl. rewrite H, Ha. simpl. auto. Qed.
 
+(* a writer only ever waits behind a full top, and a non-empty top means the
+   merger has been woken: it is not asleep *)
 Theorem blocked_writers_drain s :
-  y_closed s = false -> y_cap s > 0 -> y_wait (sy_run s (ingests (y_wait s))) = 0.
+  y_closed s = false -> y_asleep s = false -> y_cap s > 0 ->
+  y_wait (sy_run s (ingests (y_wait s))) = 0.
 Proof.
-  intros Hc Hcap.
-  assert (G : forall n s, y_closed s = false -> y_cap s > 0 -> y_wait s <= n ->
+  intros Hc Ha Hcap.
+  assert (G : forall n s, y_closed s = false -> y_asleep s = false -> y_cap s > 0 -> y_wait s <= n ->
                           y_wait (sy_run s (ingests n)) = 0).
-  { induction n as [|n IH]; intros s0 Hc0 Hcap0 Hle.
+  { induction n as [|n IH]; intros s0 Hc0 Ha0 Hcap0 Hle.
     - unfold sy_run; simpl. lia.
     - change (ingests (S n)) with (SIngest :: ingests n).
       change (sy_run s0 (SIngest :: ingests n)) with (sy_run (sy_step s0 SIngest) (ingests n)).
-      destruct (ingest_state s0 Hc0) as [E1 [E2 E3]].
+      destruct (ingest_state s0 Hc0 Ha0) as [E1 [E0 [E2 E3]]].
       apply IH.
       + exact E1.
+      + exact E0.
       + rewrite E2. exact Hcap0.
       + rewrite E3. destruct (Nat.min_spec (y_wait s0) (y_cap s0)) as [[Hlt Hm]|[Hge Hm]]; rewrite Hm; lia. }
   apply G; auto.
